@@ -348,7 +348,10 @@ func (sc *c12Scenario) Apply(w *simWorld, e simEvent) {
 		sc.lose(sc.gr && sc.nbit)
 	case "reset":
 		w.must(w.s.ResetPeer(context.Background(), &api.ResetPeerRequest{Address: g.addr().String()}))
-		sc.lose(false)
+		// the daemon sends Cease / Administrative Reset, which it does not turn into a Hard Reset: with the N
+		// bit negotiated a NOTIFICATION other than Hard Reset - sent or received - is followed by the
+		// graceful restart procedures (RFC 8538 4), which is also what the peer does on receiving it
+		sc.lose(sc.gr && sc.nbit)
 	case "disable":
 		w.must(w.s.DisablePeer(context.Background(), &api.DisablePeerRequest{Address: g.addr().String()}))
 		sc.admDown = true
